@@ -16,6 +16,7 @@ CONSTANTS
   CloseConn = TRUE
   HasFallback = TRUE
   AllowClose = TRUE
+  AllowDo = TRUE
   IdleCollects = 0
   RtoChanges = 1
   DeadlineTicks = FALSE
@@ -32,6 +33,8 @@ INVARIANT ConnOwnership
 INVARIANT GoroutinesGone
 INVARIANT OnSchedule
 INVARIANT StartErrNoCall
+INVARIANT DoNotStuck
+PROPERTY DoWaits
 PROPERTY QuietAfterEnd
 PROPERTY SilentAfterClose
 PROPERTY ClosedStartsRefused
